@@ -58,6 +58,10 @@ def value_for(role, scope_val, dotted=0):
     if role in ("arg", "bqarg", "kwarg", "nested", "dotarg"):
         return scope_val
     fn = marker_fn(scope_val)
+    if dotted == 3:
+        return types.SimpleNamespace(_fn=fn, fn=marker_fn(55.0))
+    if dotted == 4:
+        return types.SimpleNamespace(sub_1=types.SimpleNamespace(fn2=fn))
     if dotted == 1:
         return types.SimpleNamespace(fn=fn)
     if dotted == 2:
@@ -83,7 +87,7 @@ def run_config(cfg, keep=None):
     elif role == "bqarg":
         formula = f"y ~ 0 + fmc_probe(`{name}`)"
     else:
-        formula = f"y ~ 0 + {name}{'.fn' if dotted == 1 else '.sub.fn' if dotted == 2 else ''}(x)"
+        formula = f"y ~ 0 + {name}{'.fn' if dotted == 1 else '.sub.fn' if dotted == 2 else '._fn' if dotted == 3 else '.sub_1.fn2' if dotted == 4 else ''}(x)"
     if cfg.get("pad"):  # the same term as the last one of a long right-hand side
         formula = formula.replace("y ~ 0 + ", "y ~ 0 + " + " + ".join(f"I(x * {i})" for i in range(2, 2 + cfg["pad"])) + " + ")
     order = [s for s in ("data", "local", "global", "extra") if s in subset]
@@ -184,12 +188,16 @@ def configs():
         for sub in sub3:
             out.append({"role": "callee", "name": "ns", "k": k, "subset": sub, "dotted": 1})
             out.append({"role": "callee", "name": "ns", "k": k, "subset": sub, "dotted": 2})
+            out.append({"role": "callee", "name": "ns", "k": k, "subset": sub, "dotted": 3})  # ns._fn: the attribute starts with an underscore
+            out.append({"role": "callee", "name": "ns", "k": k, "subset": sub, "dotted": 4})  # ns.sub_1.fn2
         subq = [list(c) for n in range(4) for c in itertools.combinations(["data", "global", "extra"], n)]
         for sub in subq:
             out.append({"role": "bqarg", "name": "my var", "k": k, "subset": sub})
             out.append({"role": "bqarg", "name": "wz ", "k": k, "subset": sub})  # the trailing space is part of the name
             out.append({"role": "bqarg", "name": " wz", "k": k, "subset": sub})
             out.append({"role": "dotarg", "name": "ob.w", "k": k, "subset": sub})
+            out.append({"role": "dotarg", "name": "ob._w", "k": k, "subset": sub})
+            out.append({"role": "dotarg", "name": "ob.1", "k": k, "subset": sub})
             for odd in ("\u00b5", "\u2126m", "\ufb01x", "\u00e9t\u00e9"):  # identifiers that are not NFKC-stable (micro sign, ohm sign, a ligature) and a stable non-ASCII one
                 out.append({"role": "arg", "name": odd, "k": k, "subset": sub})
                 out.append({"role": "bqarg", "name": odd, "k": k, "subset": sub})
@@ -245,6 +253,23 @@ def check_envobj(case, acc):
         if got != want:
             problems.append(f"one Environment object reused, call {step + 1} with extra_namespace wz={extra_wz}: got {got}, expected {want}")
             break
+    # an array the name resolves to in the caller's scope is the caller's: its values are used, never overwritten
+    wq = np.array([1.5, -2.0, 4.0, 0.25, 3.0, -1.0])
+    wq0 = wq.copy()
+    for fml in ("y ~ 0 + center(wq) + I(wq)", "y ~ 0 + I(wq) + scale(wq)", "y ~ 0 + standardize(wq):x + fmc_ident(wq)"):
+        acc.calls += 1
+        try:
+            dm = design_matrices(fml, data_frame(), extra_namespace={"fmc_ident": (lambda v: v)})
+            M = np.asarray(dm.common.design_matrix, dtype=float)
+            ident_col = [j for j, n_ in enumerate(dm.common.terms) if n_ in ("I(wq)", "fmc_ident(wq)")][0]
+            if not np.array_equal(M[:, ident_col], wq0):
+                problems.append(f"{fml!r}: the column of the caller's array wq holds {M[:, ident_col].tolist()}, the array was {wq0.tolist()}")
+            dm.common.evaluate_new_data(data_frame())
+        except Exception as e:
+            problems.append(f"{fml!r} raised {type(e).__name__}: {e}")
+        if not np.array_equal(wq, wq0):
+            problems.append(f"{fml!r}: the caller's array wq was overwritten ({wq.tolist()})")
+            wq[:] = wq0
     for bad in ("0", 1.5, None):
         try:
             design_matrices("y ~ x", data_frame(), env=bad)
